@@ -15,7 +15,9 @@ compares equal to the live source — only results of the live source. -/
 def CrashOK (π : Par) (fs : FS) : Prop := Inv π false fs ∧ TrustK π false fs
 
 theorem inv_true_of_live {s : Bool} {fs : FS} (hi : Inv π s fs) (hl : LiveOut π fs) : Inv π true fs :=
-  ⟨hi.wf, hi.typD, hi.typF, fun a i d hg => ⟨π.ver, hl a i d hg, fun _ => rfl⟩, hi.metaOk, hi.up⟩
+  ⟨hi.wf, hi.typD, hi.typF, fun a i d hg => by
+    obtain ⟨g, hg'⟩ := hl a i d hg
+    exact ⟨π.ver, g, hg', fun _ => rfl⟩, hi.metaOk, hi.up⟩
 
 theorem codeSafe_tear {fs : FS} {o : Op} (n : Nat) (h : CodeSafe π fs o) : CodeSafe π fs (tear n o) := by
   rcases tear_eq n o with e | ⟨p, i, d, rfl, e⟩
@@ -81,13 +83,13 @@ theorem trust_apply (hco : CodeOK π) {lvl : Level} {who : Nat → Prop} {fs : F
     · rw [if_neg hij] at hc
       subst hc
       exact inv_apply (lvl := lvl) (h.2 rfl i _ hg0 hsame) (Allowed.write p j dd hw)
-  | renameOut a o hwo hd =>
+  | renameOut a o g hwo hd =>
     rcases rename_spec (pTmpOut a o) (pOut a) fs with e | ⟨_, _, _, _, _, _, _, _, hgq⟩
     · exact same (by rw [e])
     · refine same ?_
       rw [hgq]; unfold getMove
       rw [if_neg h0, if_neg (by simp [pCode, pOut]), if_neg (by simp [pCode, pTmpOut])]
-  | renameMeta a o hwo hd =>
+  | renameMeta a o g hwo hd =>
     rcases rename_spec (pTmpMeta a o) (pMeta a) fs with e | ⟨_, _, _, _, _, _, _, _, hgq⟩
     · exact same (by rw [e])
     · refine same ?_
